@@ -27,7 +27,14 @@ Inductive nty : Type := NMI | NInt.
 Inductive ty : Type :=
 | TMI | TInt | TBool | TStr
 | TList (b : bty)                       (* List(T), sal_list.as: immutable use only *)
-| TBox (d : dom) (n : nty).             (* BoxA(T) / BoxB(T) for T = MachineInteger / Integer *)
+| TBox (d : dom) (n : nty)              (* BoxA(T) / BoxB(T) for T = MachineInteger / Integer *)
+| TArr (b : bty)                        (* Array(T), sal_array.as: 0-based, updatable; used without aliasing *)
+| TUni (fs : list bty)                  (* Union(f0: T0, f1: T1, ..) (langtdef.tex:486-544); never updated *)
+| TFun (ps : list bty) (r : bty)        (* (T0, .., Tn) -> R : function values over the base types *)
+| TBad                                  (* the type of no expression (junk values only, see Eval.type_of) *)
+| TRec (fs : list bty).                 (* Record(f0: T0, f1: T1, ..) with fields of base types
+                                           (langtdef.tex:237-346); used without aliasing, see Types.v *)
+
 
 Definition dom_eqb (a b : dom) : bool := match a, b with DA, DA | DB, DB => true | _, _ => false end.
 Definition nty_eqb (a b : nty) : bool := match a, b with NMI, NMI | NInt, NInt => true | _, _ => false end.
@@ -38,16 +45,31 @@ Definition bty_eqb (a b : bty) : bool :=
   | _, _ => false
   end.
 
+Fixpoint btys_eqb (a b : list bty) : bool :=
+  match a, b with
+  | [], [] => true
+  | x :: a', y :: b' => (bty_eqb x y && btys_eqb a' b')%bool
+  | _, _ => false
+  end.
+
 Definition ty_eqb (a b : ty) : bool :=
   match a, b with
   | TMI, TMI | TInt, TInt | TBool, TBool | TStr, TStr => true
   | TList x, TList y => bty_eqb x y
   | TBox d n, TBox d' n' => (dom_eqb d d' && nty_eqb n n')%bool
+  | TArr x, TArr y => bty_eqb x y
+  | TUni x, TUni y => btys_eqb x y
+  | TFun x r, TFun y r' => (btys_eqb x y && bty_eqb r r')%bool
+  | TBad, TBad => true
+  | TRec x, TRec y => btys_eqb x y
   | _, _ => false
   end.
 
 Definition ty_of_bty (b : bty) : ty :=
   match b with BMI => TMI | BInt => TInt | BBool => TBool | BStr => TStr end.
+
+Definition bty_of_ty (t : ty) : option bty :=
+  match t with TMI => Some BMI | TInt => Some BInt | TBool => Some BBool | TStr => Some BStr | _ => None end.
 
 Definition ty_of_nty (n : nty) : ty := match n with NMI => TMI | NInt => TInt end.
 
@@ -75,7 +97,9 @@ Inductive prim : Type :=
 | PLRev (b : bty) | PLEq (b : bty) | PLNe (b : bty) | PLNth (b : bty)
 (* exports of BoxCat(T) *)
 | PBox (d : dom) (n : nty) | PUnbox (d : dom) (n : nty) | PBump (d : dom) (n : nty)
-| PTwice (d : dom) (n : nty) | PScale (d : dom) (n : nty).
+| PTwice (d : dom) (n : nty) | PScale (d : dom) (n : nty)
+(* Array(T) (sal_array.as): new(n, x), #, a.i (0-based; unchecked in the shipped library) *)
+| PANew (b : bty) | PALen (b : bty) | PAGet (b : bty).
 
 (* parametrised macros (langmacs.tex:43-47 `Op Parms ==> Body`), declared in the header:
      DBL(x) ==> ((x) + (x));   SQR(x) ==> ((x) * (x));
@@ -93,9 +117,23 @@ Inductive expr : Type :=
 | ESeq (ss : list stmt) (e : expr)      (* { s1; ...; sn; e }  langexpr.tex:559-566 *)
 | EMac (m : mac) (e : expr)             (* DBL(e) / SQR(e) *)
 | EListLit (b : bty) (es : list expr)   (* ([e1, .., en]@List(T));  (empty@List(T)) when n = 0 *)
+| EArrLit (b : bty) (es : list expr)    (* ([e0, .., en]@Array(T)) : a fresh array *)
+| ERec (fs : list bty) (es : list expr) (* ([e0, .., en]@Record(f0: T0, ..)) : a fresh record (langtdef.tex:339) *)
+| EField (i : nat) (e : expr)           (* (e.f<i>)  (langtdef.tex:289-292: apply) *)
+| EUni (fs : list bty) (i : nat) (e : expr)  (* ([f<i> == e]@Union(f0: T0, ..))  (langtdef.tex:520-544) *)
+| ECase (i : nat) (e : expr)            (* (e case f<i>) : "tests whether the union value is in the given branch" *)
+| EClo (name : nat) (ps : list bty) (r : bty) (caps : list expr)
+      (* ((a0: T0, ..): R +-> f<name>(caps.., a0, ..)) : a function expression (langfuns.tex:458-475)
+         capturing the values of the immutable names / literals [caps]; R is f's result type *)
+| EApp (fn : expr) (args : list expr)   (* (fn)(args) : application of a function value (langfuns.tex:588-598) *)
+| EUGet (i : nat) (e : expr)            (* (e.f<i>) on a union: "extracts the value"; not defined on another branch *)
 with stmt : Type :=
 | SAssG (k : nat) (e : expr)            (* g<k> := e *)
 | SAssL (k : nat) (e : expr)            (* l<k> := e *)
+| SSetG (k i : nat) (e : expr)          (* g<k>.f<i> := e  (langtdef.tex:289-292: set!) *)
+| SSetL (k i : nat) (e : expr)          (* l<k>.f<i> := e *)
+| SSetIG (k : nat) (i e : expr)         (* g<k>.(i) := e   (Array set!) *)
+| SSetIL (k : nat) (i e : expr)         (* l<k>.(i) := e *)
 | SPrint (es : list expr)               (* stdout << e1 << ... << en << newline *)
 | SIf (c : expr) (a b : list stmt)      (* if c then { a } else { b } (non-value context, langexpr.tex:794-798) *)
 | SWhile (c : expr) (body : list stmt)  (* langloop.tex:66-72 *)
